@@ -7,7 +7,7 @@ from concurrent.futures import ThreadPoolExecutor
 ROOT = os.path.dirname(os.path.dirname(os.path.abspath(__file__)))
 want = set(sys.argv[1:])
 entries = sorted(e for e in os.listdir(f"{ROOT}/harmless") if os.path.exists(f"{ROOT}/harmless/{e}/patch.diff") and (not want or e.split("-")[0] in want))
-EXTRA = {"C01": ["C02", "C14"], "C02": ["C01", "C11", "C10"], "C03": ["C14"], "C04": ["C14"], "C05": ["C06"], "C06": ["C05"], "C07": ["C08"], "C08": ["C07", "C09"], "C09": ["C08"], "C10": ["C15"], "C11": ["C17"], "C13": ["C12", "C14"], "C14": ["C01", "C03", "C04", "C13"], "C15": ["C10"], "C16": ["C05"], "C17": ["C11"]}
+EXTRA = {"C01": ["C02", "C14"], "C02": ["C01", "C11", "C10"], "C03": ["C14"], "C04": ["C14", "C17"], "C05": ["C06", "C17"], "C06": ["C05"], "C07": ["C08"], "C08": ["C07", "C09"], "C09": ["C08", "C07", "C05"], "C10": ["C15", "C02", "C11", "C12"], "C11": ["C17", "C01", "C02"], "C12": ["C13"], "C13": ["C12", "C14", "C01", "C02"], "C14": ["C01", "C03", "C04", "C13"], "C15": ["C10"], "C16": ["C05", "C17"], "C17": ["C11", "C16"], "C18": ["C11"]}
 
 
 def run(e):
